@@ -452,6 +452,9 @@ package device
 // end stops map exactly to the ends, the rest position exactly to 0, for every deadzone in [0,1)
 //@   cut load(.lastAnalogValue) [C06] deadzone >= 0.0 && deadzone < 1.0 ==> (ie.Event.Value == max ==> value == 1.0) && (ie.Event.Value == min && min < 0 ==> value == -1.0) && (ie.Event.Value == 0 && min < 0 ==> value == 0.0) && (ie.Event.Value == 0 && min >= 0 && !analog.DeadzoneAtCenter ==> value == 0.0) && (ie.Event.Value == 0 && min >= 0 && analog.DeadzoneAtCenter ==> value == -1.0)
 //@   cut load(.MappingType) [C05,C06] (isNaN(value) || value >= -1.0078) && (isNaN(value) || value <= 1.0078) && (isNaN(value) || canBeNegative || value >= -0.0039) && (isNaN(value) || canBeNegative || value <= 1.0038)
+//@   cut load(.MappingType) [C06] deadzone >= 0.0 && deadzone < 1.0 && !analog.FlipAxis ==> (ie.Event.Value == max ==> value == 1.0) && (ie.Event.Value == min && min < 0 ==> value == -1.0) && (ie.Event.Value == 0 && min < 0 ==> value == 0.0) && (ie.Event.Value == 0 && min >= 0 && !analog.DeadzoneAtCenter ==> value == 0.0)
+//@   cut load(.MappingType) [C06] deadzone >= 0.0 && deadzone < 1.0 && analog.FlipAxis && canBeNegative ==> (ie.Event.Value == max ==> value == -1.0) && (ie.Event.Value == min && min < 0 ==> value == 1.0)
+//@   cut load(.MappingType) [C06] deadzone >= 0.0 && deadzone < 1.0 && analog.FlipAxis && !canBeNegative ==> (ie.Event.Value == max ==> value == 0.0) && (ie.Event.Value == 0 && !analog.DeadzoneAtCenter ==> value == 1.0)
 //@   ensures wf(d) && tableOK(d)
 //@   ensures [C01!] old(Inv(d)) ==> Inv(d)
 // ---- C07: bidirectional CC. v is the shaped, flipped value the switch sees; neg says which side it is on.
@@ -468,6 +471,18 @@ package device
 //@   ensures [C07] isBidiCC && a.CC != a.CCNeg && old(zeroedOK(d)) && outLen != old(outLen) ==> (bidiSideNeg(canBeNegative, local(value)) ==> ccv[a.CC] == 0) && (!bidiSideNeg(canBeNegative, local(value)) ==> ccv[a.CCNeg] == 0)
 //@   ensures [C07] a.MappingType == config.AnalogCC && old(d.ccLearning) && !(local(value) < -0.5 || local(value) > 0.5) ==> outLen == old(outLen) && keys(d.ccZeroed) == old(keys(d.ccZeroed)) && vals(d.ccZeroed) == old(vals(d.ccZeroed))
 //@   ensures [C07] isBidiCC && a.CC != a.CCNeg && bidiCC[a.CC] && bidiCC[a.CCNeg] && a.CC != 123 && a.CCNeg != 123 && old(zeroedOK(d)) ==> zeroedOK(d)
+// ---- C06: exact values at the ends and at rest. v = local(value) is the shaped, flipped value the switch sees
+// (the cut facts above pin it to exactly +-1.0 at the physical end stops and 0.0 at rest, for every deadzone in [0,1)).
+//@   let isCC := has(d.config.KeyMappings[d.mapping].Analog[ie.Source.Name], ie.Event.Code) && a.MappingType == config.AnalogCC
+//@   let isPB := has(d.config.KeyMappings[d.mapping].Analog[ie.Source.Name], ie.Event.Code) && a.MappingType == config.AnalogPitchBend
+//@   ensures [C06] isCC && !canBeNegative && !a.Bidirectional && outLen != old(outLen) ==> (local(value) == 1.0 ==> out[old(outLen)].b2 == 127) && (local(value) == 0.0 ==> out[old(outLen)].b2 == 0)
+//@   ensures [C06] isCC && canBeNegative && !a.Bidirectional && outLen != old(outLen) ==> (local(value) == 1.0 ==> out[old(outLen)].b2 == 127) && (local(value) == -1.0 ==> out[old(outLen)].b2 == 0) && (local(value) == 0.0 ==> out[old(outLen)].b2 == 63)
+//@   ensures [C06] isCC && canBeNegative && a.Bidirectional && outLen != old(outLen) ==> (local(value) == 1.0 || local(value) == -1.0 ==> out[old(outLen)].b2 == 127) && (local(value) == 0.0 ==> out[old(outLen)].b2 == 0)
+//@   ensures [C06] isCC && !canBeNegative && a.Bidirectional && outLen != old(outLen) ==> (local(value) == 1.0 || local(value) == 0.0 ==> out[old(outLen)].b2 == 127) && (local(value) == 0.5 ==> out[old(outLen)].b2 == 0)
+//@   ensures [C06] isPB && canBeNegative && outLen != old(outLen) ==> (local(value) == 0.0 ==> out[old(outLen)].b1 == 0 && out[old(outLen)].b2 == 64) && (local(value) == 1.0 ==> out[old(outLen)].b1 == 127 && out[old(outLen)].b2 == 127) && (local(value) == -1.0 ==> out[old(outLen)].b1 == 0 && out[old(outLen)].b2 == 0)
+//@   ensures [C06] isPB && !canBeNegative && outLen != old(outLen) ==> (local(value) == 0.5 ==> out[old(outLen)].b1 == 0 && out[old(outLen)].b2 == 64) && (local(value) == 1.0 ==> out[old(outLen)].b1 == 127 && out[old(outLen)].b2 == 127) && (local(value) == 0.0 ==> out[old(outLen)].b1 == 0 && out[old(outLen)].b2 == 0)
+// end to end, unsigned unflipped controller axis: the physical maximum transmits exactly 127 and the physical minimum 0
+//@   ensures [C06] isCC && !canBeNegative && !a.Bidirectional && !a.FlipAxis && !a.DeadzoneAtCenter && outLen != old(outLen) && deadzone >= 0.0 && deadzone < 1.0 ==> (ie.Event.Value == max ==> out[old(outLen)].b2 == 127) && (ie.Event.Value == 0 ==> out[old(outLen)].b2 == 0)
 // ---- C08: key emulation. kv is the value the threshold switch sees; id / idn are the two tracker keys of this axis
 // (assumed: the two identifier strings of an axis differ, i.e. Sprintf("%d") and Sprintf("%d_neg") never collide)
 //@   let isKeyAx := has(d.config.KeyMappings[d.mapping].Analog[ie.Source.Name], ie.Event.Code) && a.MappingType == config.AnalogKeySim
